@@ -253,9 +253,14 @@ type armWriter struct {
 	bytes.Buffer
 	armed bool
 	fired int
+	skip  int // writes to let through before the refusal
 }
 
 func (w *armWriter) Write(p []byte) (int, error) {
+	if w.armed && w.skip > 0 {
+		w.skip--
+		return w.Buffer.Write(p)
+	}
 	if w.armed {
 		w.armed = false
 		w.fired++
@@ -333,12 +338,54 @@ func runRefused(c *fw.Ctx, cf config) {
 			n++
 		})
 	}
+	// a LATER write of the flush's block is refused (after j writes went through): the stream is torn, and what the
+	// call returns is C16's business — but if it reports success, the output must be the model's block sequence
+	runLater := func(h []int, at, j int) {
+		desc := fmt.Sprintf("%s codec=%s blocksize=%d history=[%s], write %d of the block of call %d (flush) refused", cf.k.Name, cf.codec, cf.bs, encdrv.HistString(cf.k, h), j+1, at)
+		locus := fmt.Sprintf("%s|bs=%s|refused-later-write", cf.k.Name, bsClass(cf))
+		detail := map[string]interface{}{"type": cf.k.Name, "codec": cf.codec, "blocksize": cf.bs, "history": encdrv.HistString(cf.k, h), "refused_call": at, "writes_let_through": j}
+		c.Eval(1)
+		c.Begin(locus, desc)
+		c.Guard(locus, desc, detail, func() {
+			var w armWriter
+			e, err := encdrv.New(cf.k, &w, cf.codec, cf.bs)
+			if err != nil {
+				return
+			}
+			m := &encdrv.Model{K: cf.k, BlockSize: cf.bs}
+			for i, op := range h {
+				trans++
+				if i == at {
+					w.armed, w.skip = true, j
+				}
+				if cf.k.IsFlush(op) {
+					err = e.Flush()
+				} else {
+					err = e.Encode(op)
+				}
+				w.armed = false
+				m.Step(op)
+				if err != nil {
+					return // reported: nothing further is claimed about this stream here
+				}
+				if sig, msg := m.CheckOutput(w.Bytes(), cf.codec); sig != "" {
+					c.Violation("success-reported-"+sig+"|"+locus, fmt.Sprintf("every call so far returned nil, yet after call %d: %s — %s", i, msg, desc), detail)
+					return
+				}
+			}
+			c.Nontrivial(desc)
+			n++
+		})
+	}
 	hist = func(h []int) {
 		// which calls of h are flushes with records pending?
 		m := &encdrv.Model{K: cf.k, BlockSize: cf.bs}
 		for i, op := range h {
 			if cf.k.IsFlush(op) && len(m.Pending) > 0 {
 				run(h, i)
+				for j := 1; j <= 5; j++ {
+					runLater(h, i, j)
+				}
 			}
 			if !cf.k.IsFlush(op) && m.PendBytes+len(cf.k.RecordBytes(op)) >= cf.bs {
 				run(h, i) // this Encode completes a block by size: its first write is refused
@@ -519,6 +566,43 @@ func runLong(c *fw.Ctx, codec string) {
 			}
 		})
 	}
+	// one block of very many records: 2^16-1, 2^16, 2^16+1, 70000 and 2^17+3 one-byte records pending, then flush
+	for _, nrec := range []int{1<<14 - 1, 1 << 14, 1<<16 - 1, 1 << 16, 1<<16 + 1, 70000, 1<<17 + 3} {
+		bs := 8 << 20
+		cf := config{k, codec, bs, 0}
+		desc := fmt.Sprintf("%s codec=%s blocksize=%d: %d one-byte records encoded, then flush", k.Name, codec, bs, nrec)
+		locus := fmt.Sprintf("%s|bs=%s|many-records-in-one-block", k.Name, bsClass(cf))
+		c.Eval(1)
+		c.Begin(locus, desc)
+		c.Nontrivial(desc)
+		c.Guard(locus, desc, desc, func() {
+			var buf bytes.Buffer
+			e, err := encdrv.New(k, &buf, codec, bs)
+			if err != nil {
+				c.Violation("ctor-error|"+locus, err.Error(), desc)
+				return
+			}
+			m := &encdrv.Model{K: k, BlockSize: bs}
+			for i := 0; i < nrec; i++ {
+				if err := e.Encode(0); err != nil {
+					c.Violation("spurious-error|"+locus, fmt.Sprintf("encode %d returned %v — %s", i, err, desc), desc)
+					return
+				}
+				m.Step(0)
+			}
+			for r := 0; r < 2; r++ {
+				if err := e.Flush(); err != nil {
+					c.Violation("spurious-error|"+locus, fmt.Sprintf("flush returned %v — %s", err, desc), desc)
+					return
+				}
+				m.Step(k.NumOps() - 1)
+				if sig, msg := m.CheckOutput(buf.Bytes(), codec); sig != "" {
+					c.Violation(sig+"|"+locus, fmt.Sprintf("after flush %d: %s — %s", r+1, msg, desc), desc)
+					return
+				}
+			}
+		})
+	}
 	c.Count("states", 4)
 	c.Count("transitions", 4*6000)
 	c.Count("traces_validated_against_impl", 4*6000)
@@ -637,7 +721,7 @@ func init() {
 			if tier == "thorough" {
 				d1, d0 = 8, 12
 			}
-			return fmt.Sprintf("explicit-state BFS over call histories of the real Encoder[T]: alphabet {encode(1B), encode(10B), encode(41B), flush} to depth %d for struct{S string} with block sizes {0,1,10,11,20,2^20}, the same with records of 102/9002/20003 bytes (block lengths in the 2- and 3-byte varint ranges) and with a 1.3 MB record between small ones (depth 4), and {encode(0B), flush} to depth %d for struct{} with block sizes {0,1,2^20}, × {null,deflate,snappy}; plus a sweep of every record size 0..1500 bytes (9000 thorough) and 2^k±4 up to 128 KiB of incompressible text (so the compressed block length sweeps the range as well) as two single-record blocks; plus every history of depth<=4 (5) over block sizes {0,10,2^20} in which, for every explicit flush with records pending, the writer refuses that flush's first write once (nothing consumed) and the flush is retried, and for every encode that completes a block by size the same refusal (the record must stay pending and go out with the next block); plus two independent encoders of one codec alive at once, B driven to emit blocks from inside each of A's writes in turn; plus block sizes just above and well above 1 MiB with a 1.3 MB record; plus every history of <=5 calls over {encode, an encode whose registered codec panics before writing (recovered by the caller), flush}; plus one fixed pseudo-random history of 6000 calls per codec and block size {0,100,5000,2^20}, model checked every 97 calls; successor = replay of the shortest history on a fresh encoder + one call; states deduplicated on (pending records, sync-normalised output hash); after every call the whole output is parsed by the reference container parser and compared with the lock-step model {pending []record}; distinct_nontrivial counts distinct (config, history) pairs checked", d1, d0)
+			return fmt.Sprintf("explicit-state BFS over call histories of the real Encoder[T]: alphabet {encode(1B), encode(10B), encode(41B), flush} to depth %d for struct{S string} with block sizes {0,1,10,11,20,2^20}, the same with records of 102/9002/20003 bytes (block lengths in the 2- and 3-byte varint ranges) and with a 1.3 MB record between small ones (depth 4), and {encode(0B), flush} to depth %d for struct{} with block sizes {0,1,2^20}, × {null,deflate,snappy}; plus a sweep of every record size 0..1500 bytes (9000 thorough) and 2^k±4 up to 128 KiB of incompressible text (so the compressed block length sweeps the range as well) as two single-record blocks; plus every history of depth<=4 (5) over block sizes {0,10,2^20} in which, for every explicit flush with records pending, the writer refuses that flush's first write once (nothing consumed) and the flush is retried, and for every encode that completes a block by size the same refusal (the record must stay pending and go out with the next block), and for every such flush also a refusal of its block's 2nd..6th write (the stream is torn; if the call nevertheless reports success the output must still be the model's); plus two independent encoders of one codec alive at once, B driven to emit blocks from inside each of A's writes in turn; plus block sizes just above and well above 1 MiB with a 1.3 MB record; plus every history of <=5 calls over {encode, an encode whose registered codec panics before writing (recovered by the caller), flush}; plus one fixed pseudo-random history of 6000 calls per codec and block size {0,100,5000,2^20}, model checked every 97 calls, and single blocks of 2^14-1, 2^14, 2^16-1, 2^16, 2^16+1, 70000 and 2^17+3 one-byte records followed by two flushes; successor = replay of the shortest history on a fresh encoder + one call; states deduplicated on (pending records, sync-normalised output hash); after every call the whole output is parsed by the reference container parser and compared with the lock-step model {pending []record}; distinct_nontrivial counts distinct (config, history) pairs checked", d1, d0)
 		},
 		Assumptions: []string{
 			"records are drawn from a 3-size alphabet (1, 10, 41 encoded bytes) plus the zero-byte record; larger records and other block sizes are not explored",
